@@ -37,6 +37,9 @@ func c02Item(c *ctx, it *ref.Item, class string) {
 	if len(want) > 2 {
 		c.Class(fmt.Sprintf("lenbytes=%d/%s", want[0]&3, it.Kind))
 	}
+	if (class == "tree" || class == "boundary-length") && len(want) > 4 && len(want) < 200 && c.WantSample() {
+		c.Sample(map[string]interface{}{"item": ref.Print(it), "ToBytes": fmt.Sprintf("%x", got), "reference": fmt.Sprintf("%x", want)})
+	}
 	if o.Panicked {
 		c.Violation("C02/item/constructor-refused-valid/"+it.Kind.String(), "valid item refused: "+o.String()+" item="+clipS(ref.Print(it)), c02Case{Op: "item", Item: it})
 		return
